@@ -146,6 +146,7 @@ theorem step_accounting (ops : PriceOps P) (m : Market P) (hinv : Inv m) (o : Op
       filledIn id (m.step ops o).2 + curVol (m.step ops o).1 id := by
   cases o with
   | setRunning b => simp [Market.step, accepted, filledIn, curVol]
+  | setFund f => simp [Market.step, accepted, filledIn, curVol]
   | add r =>
     simp only [Market.step, Market.addOrder]
     cases hb : r.isBuy
@@ -288,6 +289,7 @@ theorem goneInv_step (ops : PriceOps P) (m : Market P) (hinv : Inv m) (hg : Gone
     GoneInv (m.step ops o).1 := by
   cases o with
   | setRunning b => exact hg
+  | setFund f => exact hg
   | add r =>
     simp only [Market.step, Market.addOrder]
     cases hb : r.isBuy
